@@ -15,6 +15,15 @@ CHECKS = {
  "C14": dict(cat="model_checking", tech="explicit-state exploration of the tableau simplex as a transition system (states = tableaux, transitions = pivots) with an exact rational model derived per state and conformance checked on every transition",
    text="For every model of the families all pivot histories of phase one, solve, solve_step_by_step and raw step are recorded (hook 3). Each visited state is compared with the exact canonical tableau B^-1[A|b] computed from the standard form and the state's basis; each pivot is checked legal in the exact model (improving column, positive pivot, minimal ratio), b>=0 and objective monotone; final states are checked optimal / unboundedness genuine against the exact LP; iteration-limit on any member is a violation.",
    note="Trusted: exact Gauss-Jordan model over BigRational, pivot recorder hook, 1e-7 conformance tolerance; families n<=4, m<=4.", ref="4/C14"),
+ "C15": dict(cat="fault_enumeration", engine="harness_vclock", tech="fault-point enumeration over the wall clock: microlp's clock (crate web-time) is replaced by a virtual clock, and every expiry point k=0..N+1 of every search x 11 mip_gap values is executed and judged by an exact MILP oracle",
+   text="For every model of a MILP/LP menu the number N of clock reads of the whole search is measured under the virtual clock; solve_milp_lp_problem_with is then run with time_limit = k ns for every k in 0..N+1 and every gap in {unset,0,1e-9,0.1,0.5,10,-1,-0.0,NaN,+inf,-inf}. Every returned solution must pass the feasibility certificate; an Optimal label must be within the gap of the exact optimum; invalid gaps must be rejected; infeasible/unbounded models must never yield a solution.",
+   note="Trusted: the 90-line virtual clock (vendor/web-time-vclock) patched in for crate web-time, the only clock microlp reads; exact MILP oracle. Real executions are a subset of the enumerated expiry points.", ref="4/C15"),
+ "C17": dict(cat="exploration", tech="exhaustive enumeration of LinearModel families x coefficient/domain/naming alphabets, exported with to_lp_format and read back by an independent CPLEX-LP reader; exact comparison",
+   text="Every member of the families (coefficients incl. -0.0, 1e-7, 1e9, 1/3; 11 domain forms; row/variable naming menus incl. user rows named like generated ones; min/max/satisfy; offsets; no rows) is exported and parsed by an independent reader; sense, objective, constant, rows, names, bounds and integrality markings must be identical to the model (numbers round-trip exactly).",
+   note="Trusted: the harness's LP reader (CPLEX-LP subset). A variable occurring nowhere in the file with default range is tolerated.", ref="4/C17"),
+ "C20": dict(cat="exploration", tech="exhaustive enumeration of continuous LinearModel families with named rows, filtered exactly to unique non-degenerate optima; reported shadow prices compared with exact multipliers that are self-checked against exact two-sided finite differences",
+   text="For every family member with a unique non-degenerate optimum (exact test) whose +-1/1024 rhs perturbations keep the basis, the exact multipliers are computed and confirmed by exact re-solves; solve_real_lp_problem_clarabel's shadow price of every named row must equal the sensitivity in the user's sense (1e-5), inactive rows 0, unnamed rows absent. All subsets of unnamed rows are enumerated in family D1.",
+   note="Trusted: exact LP oracle and n x n multiplier system; 1e-5 tolerance for the interior-point duals. Clarabel is the only default-feature solver that reports duals.", ref="4/C20"),
 }
 NA_REASON = "engine not built yet in this round (planned, see DESIGN.md section 4); not claimed until its check exists"
 ALL = ["C%02d" % i for i in range(1, 21)]
@@ -36,7 +45,7 @@ def main():
         })
     m = {
       "version": 1,
-      "setup_cmd": "cd /verif/harness && CARGO_NET_OFFLINE=true cargo build --release --offline",
+      "setup_cmd": "cd /verif/harness && CARGO_NET_OFFLINE=true cargo build --release --offline && cd /verif/harness_vclock && CARGO_NET_OFFLINE=true cargo build --release --offline",
       "hooks": {
         "guard": "cargo feature verif_hooks (crate rooc)",
         "enable": "the harness depends on rooc = { path = \"/repo/packages/rooc\", features = [\"verif_hooks\"] }; every ./check rebuilds it from the working tree",
@@ -47,6 +56,8 @@ def main():
       "engines": [
         {"name": "harness", "path": "/verif/harness", "serves_properties": sorted(k for k in CHECKS if CHECKS[k].get("engine","harness")=="harness"),
          "kind_free_text": "hand-rolled explicit-state / small-scope explorer in Rust linking the real crate; ranked enumeration, 16-way sharding, worker-subprocess isolation with watchdog, exact rational oracles"},
+        {"name": "harness_vclock", "path": "/verif/harness_vclock", "serves_properties": ["C15"],
+         "kind_free_text": "same sources as harness, built with crate web-time patched to the virtual clock in /verif/vendor/web-time-vclock (clock-expiry fault enumeration)"},
       ],
       "checks": checks,
       "not_applicable": [{"property_id": p, "reason": NA_REASON} for p in ALL if p not in CHECKS],
